@@ -365,10 +365,17 @@ func (V *Verifier) checkProperty(prop string, verbose bool, t0 time.Time) int {
 		fmt.Printf("BROKEN property=%s: no function, scan or lemma carries this property\n", prop)
 		rc = 2
 	}
-	if len(undecided) > 0 && rc == 0 {
-		// not a violation (no obligation failed), but the run is not proof-level: report as broken so it is noticed
-		fmt.Printf("BROKEN property=%s: %d function(s) outside the verifier's reach on this tree\n", prop, len(undecided))
-		rc = 2
+	for _, u := range undecided {
+		// the deciding step is the verifier accepting every obligation generated from the current source; a function it
+		// can no longer bring under contract (construct outside the subset, renamed invariant variable, missing model)
+		// leaves its obligations undischarged. Reported as a violation without a failing input.
+		o := &Oblig{Name: u.Fn + "#verifier-reach", Fn: u.Fn, Kind: "reach", Status: "undecided", Detail: u.Reason, Clause: "every function under contract must be within the verifier's reach: " + u.Reason}
+		dir := V.writeReplay(prop, o)
+		violations++
+		fmt.Printf("VIOLATION property=%s replay=%s obligation=%s no-failing-input-found\n", prop, dir, o.Name)
+		if rc == 0 {
+			rc = 1
+		}
 	}
 	level := "proof"
 	cov := map[string]interface{}{
